@@ -580,3 +580,48 @@ func execC07(rt *rapid.T, w *World, m Method) {
 	}
 	Sample(map[string]any{"method": m.Name, "reached_calls": len(reached), "example_location": fmtPath(locs[reached[0]])})
 }
+
+// ---- C04 auxiliary: Go race detector (NOT simulation; thorough tier only) -----------------
+
+type prngChooser struct{ state uint64 }
+
+func (p *prngChooser) Int(lo, hi int, label string) int {
+	if hi <= lo {
+		return lo
+	}
+	p.state = p.state*6364136223846793005 + 1442695040888963407
+	return lo + int((p.state>>33)%uint64(hi-lo+1))
+}
+
+// RunRace releases several goroutines at once on one shared source, without the
+// simulator's scheduler (its channels would create happens-before edges and blind the
+// detector). Built with -race; a report makes the process exit 66.
+func RunRace(t *testing.T, w *World) {
+	for _, m := range w.Methods {
+		srcT := reflect.TypeOf(m.Fn).In(0)
+		for iter := 0; iter < 60; iter++ {
+			b := NewBuilder(&prngChooser{state: uint64(iter)*977 + 13}, 0)
+			b.Share = true
+			b.Enums = w.Enums
+			src := b.Build(srcT)
+			start := make(chan struct{})
+			var wg sync.WaitGroup
+			for g := 0; g < 4; g++ {
+				wg.Add(1)
+				go func() {
+					defer wg.Done()
+					<-start
+					defer func() { _ = recover() }()
+					out := reflect.ValueOf(m.Fn).Call([]reflect.Value{src})
+					// each caller mutates what it owns: its own result
+					if !m.SkipCopy {
+						Scribble(out[0])
+					}
+				}()
+			}
+			close(start)
+			wg.Wait()
+			Count("c04.race_aux_rounds", 1)
+		}
+	}
+}
